@@ -34,7 +34,7 @@ OMEGA_E = 7.2921159e-5
 LABELS = ts.SCALES
 _tables = None
 
-OPS = ["sgp4", "sgp4beta", "kepler", "j2", "keplernum", "cw", "none", "sun", "moon", "frames", "station", "ephem", "events",
+OPS = ["sgp4", "sgp4beta", "kepler", "j2", "keplernum", "cw", "none", "sun", "moon", "frames", "station", "ephem", "ephem-nodes", "events",
        "tle-text", "ccsds-opm", "ccsds-oem", "ccsds-man", "lambert", "ltan", "beta"]
 
 
@@ -234,6 +234,19 @@ def run_case(ctx, job, idx, rng, st):
         return {"pv": ("vec", vec(p))}
 
     rng_q = rng.uniform(0, 2400)
+    node_k = rng.randrange(2, 40)  # strictly inside: a relabelled (microsecond-rounded) first node may fall just outside the table
+
+    def op_ephem_nodes(l, le):
+        # a 1 s table queried exactly at one of its own instants: the clock reading of that instant in another label
+        # coincides with the clock reading of ANOTHER node (TAI-UTC, GPS-UTC are whole seconds), so anything keyed on
+        # clock fields instead of the instant returns the wrong node
+        o = cart_orbit(le, Kepler())
+        eph = o.ephem(start=epoch.date(le), stop=timedelta(seconds=90), step=timedelta(seconds=1))
+        out = {}
+        for j in (node_k, node_k + 17, node_k + 36):
+            q = epoch.shifted(float(j))
+            out[f"node{j - node_k}"] = ("vec", vec(eph.interpolate(q.date(l))))
+        return out
 
     def op_events(l, le):
         o = cart_orbit(le, Kepler())
@@ -305,7 +318,7 @@ def run_case(ctx, job, idx, rng, st):
         return {"beta": ("rad", float(beta(StateVector(cart, arg.date(l), "cartesian", "EME2000"), "Sun")))}
 
     ops = dict(zip(OPS, [op_sgp4, op_sgp4beta, op_kepler, op_j2, op_keplernum, op_cw, op_none, op_sun, op_moon, op_frames, op_station,
-                         op_ephem, op_events, op_tle_text, op_ccsds_opm, op_ccsds_oem, op_ccsds_man, op_lambert, op_ltan, op_beta]))
+                         op_ephem, op_ephem_nodes, op_events, op_tle_text, op_ccsds_opm, op_ccsds_oem, op_ccsds_man, op_lambert, op_ltan, op_beta]))
 
     # which instants does each operation hand to the library as labelled dates
     involved = {
@@ -314,14 +327,14 @@ def run_case(ctx, job, idx, rng, st):
     dates_of = {
         "sgp4": (["arg"], ["epoch"]), "sgp4beta": (["arg"], ["epoch"]), "kepler": (["arg"], ["epoch"]), "j2": (["arg"], ["epoch"]),
         "keplernum": (["short"], ["epoch"]), "cw": (["short"], ["epoch"]), "none": (["arg"], ["epoch"]), "sun": (["arg"], []), "moon": (["arg"], []),
-        "frames": (["arg"], []), "station": (["arg"], []), "ephem": (["epoch"], ["epoch"]), "events": (["epoch", "arg"], ["epoch"]),
+        "frames": (["arg"], []), "station": (["arg"], []), "ephem": (["epoch"], ["epoch"]), "ephem-nodes": (["epoch"], ["epoch"]), "events": (["epoch", "arg"], ["epoch"]),
         "tle-text": ([], ["epoch"]), "ccsds-opm": ([], ["epoch"]), "ccsds-oem": ([], ["epoch"]), "ccsds-man": (["arg"], ["epoch"]),
         "lambert": (["arrival"], ["epoch"]), "ltan": (["arg"], []), "beta": (["arg"], []),
     }
     eop_sensitive = {"frames", "station", "ltan", "sun", "beta"}
     lo_short, hi_short = min(0.0, short.mjd - epoch.mjd) * 86400 - 600, max(0.0, short.mjd - epoch.mjd) * 86400 + 600
     span_of = {  # operations that derive further dates from the ones they are given (start + k.step, bisection, extra steps)
-        "keplernum": (lo_short, hi_short), "cw": (lo_short, hi_short), "ephem": (0.0, 2400.0), "events": (-2000.0, 6600.0 + 2000.0),
+        "keplernum": (lo_short, hi_short), "cw": (lo_short, hi_short), "ephem": (0.0, 2400.0), "ephem-nodes": (0.0, 90.0), "events": (-2000.0, 6600.0 + 2000.0),
         "ccsds-oem": (0.0, 1200.0),
     }
 
